@@ -12,14 +12,21 @@ Class(line, bad) ==
    (*          and trims leading "../": with a root loaded from a relative path, shared/x.json (below the root's directory) and  *)
    (*          ../shared/x.json (beside it) both become "shared_x_X"                                                                *)
    IF c.shape \in {"collision", "samepath_twohosts"} /\ bad = {"resolves_to_same_content"} THEN "default_name_collision"
-   ELSE IF c.shape = "sametail" /\ bad = {"resolves_to_same_content"} THEN "default_name_collision"       \* (whether it shows depends on how the root's own location is spelled)
+   ELSE IF c.shape = "sametail" /\ bad = {"resolves_to_same_content"}
+           /\ c.entry \in {"file_rel", "file_rel_default", "data", "reader", "uri_remote"}      \* (it shows only when the root's own location is relative, absent or remote; under an
+        THEN "default_name_collision"                                                            \*  absolute file path the two files get different names, and must)
    (* F-C16-2: references inside a callback that lives in an external file are not rewritten      *)
-   ELSE IF c.kind = "callbacks" /\ c.shape \in {"childlocal", "childlocal_shadow", "selfcycle", "mutualcycle"}     \* (a cycle through a callback is such a local reference)
+   ELSE IF c.kind = "callbacks" /\ c.shape \in {"childlocal", "childlocal_shadow", "childpair_local", "selfcycle", "mutualcycle"}     \* (a cycle through a callback is such a local reference)
            /\ bad \subseteq {"reloads_without_external_refs", "resolves_to_same_content"}
         THEN "callback_inner_refs_not_internalised"
    (* F-C16-3: a root component that is a whole-file reference to a header / response              *)
    ELSE IF c.shape = "wholefile" /\ c.pos = "comp" /\ c.kind \in {"headers", "responses"}
            /\ bad \subseteq {"validates_iff_original", "resolves_to_same_content", "reloads_without_external_refs"}
         THEN "wholefile_component_self_reference"
+   (* F-C16-6 (= F-C02-5 seen from here): a local pointer BELOW a header component loads from a file only through the loader's raw   *)
+   (*          re-read of the root; the internalised document, loaded from memory, meets the typed walk alone and fails to load      *)
+   ELSE IF bad = {"reloads_without_external_refs"} /\ c.u.use.ref.path = <<>> /\ c.u.use.ref.frag # <<>>
+           /\ c.u.use.ref.frag[1] = "#compinl" /\ c.u.use.ref.frag[2] = "headers"
+        THEN "pointer_below_header_component"
    ELSE "none"
 =============================================================================
